@@ -465,6 +465,8 @@ impl ThreadPoolState {
                 }
             }
 
+            #[cfg(egglog_verif)]
+            crate::verif_hooks::perturb(12);
             match receiver.try_recv() {
                 Ok(job) => {
                     job();
@@ -710,10 +712,14 @@ impl<'scope> Scope<'scope> {
             if let Err(payload) = result {
                 scope.state.record_panic(payload);
             }
+            #[cfg(egglog_verif)]
+            crate::verif_hooks::perturb(11);
             scope.state.complete_one();
         });
 
         self.state.expect_one();
+        #[cfg(egglog_verif)]
+        crate::verif_hooks::perturb(10);
         // SAFETY: every erased job records completion in the scope state, and
         // `Scope::complete_root_and_wait` waits for all expected completions
         // before `ThreadPool::scope` returns.
@@ -721,6 +727,8 @@ impl<'scope> Scope<'scope> {
     }
 
     fn complete_root_and_wait(&self) {
+        #[cfg(egglog_verif)]
+        crate::verif_hooks::perturb(13);
         if !self.state.complete_one() {
             // SAFETY: the scope is created from a live `ThreadPoolState`, and
             // `ThreadPool::drop` joins all workers before dropping that boxed
